@@ -196,6 +196,20 @@ def check(ctx):
     ctx.ob("C07.c", "FoldReducer.clear: storage reset or deinitialised and _initial := True on every path", ok, "", clr.where)
     gk = [ast.unparse(t) + ":" + lab for r in rs for t, lab in g.guards_of(r) if any(isinstance(c, ast.Call) and dotted(c.func) == "self.data_.reset" for c in ast.walk(r.ast))]
     ctx.ob("C07.c", "FoldReducer.clear(keepshape=True) keeps storage and refills it", "keepshape:T" in gk, f"{gk}", clr.where)
+    # fill value: the reducer's own fill is what clear(keepshape=True) and the lazy initialisation write
+    fi = fr.methods["__init__"]
+    okf = any(isinstance(n, ast.Assign) and is_self_attr(n.targets[0], "__fill") and isinstance(n.value, ast.Name) and n.value.id == "fill" for n in walk_own(fi.node))
+    rcalls = [c for c in P.calls_in(clr) if dotted(c.func) == "self.data_.reset"]
+    okr = len(rcalls) == 1 and len(rcalls[0].args) == 1 and dotted(rcalls[0].args[0]) == "self.__fill"
+    icalls = [c for c in P.calls_in(fw) if dotted(c.func) == "self.data_.initialize"]
+    oki = len(icalls) == 1 and dotted(kwarg(icalls[0], "fill", 3)) == "self.__fill"
+    ctx.ob("C07.c", "FoldReducer: clear(keepshape=True) and lazy initialisation refill storage with the reducer's own fill value", okf and okr and oki,
+           "" if okf and okr and oki else "history slots are refilled with a value other than the reducer's fill: after clear() a view further back than the new observations "
+           "does not show the pre-first-observation value", clr.where)
+    ev = P.cls("EventReducer").methods["__init__"]
+    ec = [c for c in P.calls_in(ev) if dotted(c.func) == "FoldReducer.__init__"]
+    oke = len(ec) == 1 and len(ec[0].args) >= 6 and isinstance(ec[0].args[5], ast.Name) and ec[0].args[5].id == "initial"
+    ctx.ob("C07.c", "EventReducer passes its initial value as the reducer's fill", oke, "", ev.where)
     push = fr.methods.get("push")
     calls = [c for c in P.calls_in(push) if dotted(c.func) == "self.data_.push"]
     ok = len(calls) == 1 and dotted(kwarg(calls[0], "inplace", 1)) == "self.inplace" and isinstance(calls[0].args[0], ast.Name) and calls[0].args[0].id == push.params()[0]
